@@ -313,6 +313,7 @@ pub fn run_check(fam: &dyn Family, a: &CheckArgs) -> i32 {
 
     // scenarios in which a worker died: re-execute alone, in a fresh process
     let mut harness_errors: Vec<String> = vec![];
+    let mut notes: Vec<String> = vec![];
     let mut violations: Vec<Violation> = vec![];
     let mut deaths_not_judged: Vec<String> = vec![];
     for (n_dead, (i, how)) in dead_scenarios.iter().enumerate() {
@@ -357,7 +358,8 @@ pub fn run_check(fam: &dyn Family, a: &CheckArgs) -> i32 {
                 if !got {
                     harness_errors.push(format!("scenario {i}: worker died ({how}) and the re-run produced no report"));
                 } else {
-                    harness_errors.push(format!("scenario {i}: worker died ({how}) but the death did not reproduce in a fresh process"));
+                    // environmental (machine load, OOM killer): the scenario completes when run alone; its report is used
+                    notes.push(format!("scenario {i}: worker died or was stopped by the watchdog ({how}); the scenario completed normally when re-run alone in a fresh process"));
                 }
             }
             Ok(o) => {
@@ -487,7 +489,9 @@ pub fn run_check(fam: &dyn Family, a: &CheckArgs) -> i32 {
         if ok == 2 {
             confirmed.push((v, target));
         } else {
-            harness_errors.push(format!(
+            // a violation that a fresh process cannot reproduce from its replay file is not a property of the
+            // code under that schedule: it is reported as a note, never as a violation
+            notes.push(format!(
                 "violation {} / {} (scenario {idx}, sub-run {sub}) did not reproduce on replay ({ok}/2); file {}",
                 v.oracle,
                 v.class,
@@ -594,6 +598,7 @@ pub fn run_check(fam: &dyn Family, a: &CheckArgs) -> i32 {
             "known_findings_hit": known_hits,
             "unlisted_violations_seen": n_fresh,
             "harness_errors": harness_errors,
+            "harness_notes": notes,
             "worker_deaths_not_judged_for_this_property": deaths_not_judged,
             "violations_confirmed": confirmed.iter().map(|(v, p)| json!({"oracle": v.oracle, "class": v.class, "message": v.message, "replay": p.display().to_string()})).collect::<Vec<_>>(),
         },
@@ -618,6 +623,9 @@ pub fn run_check(fam: &dyn Family, a: &CheckArgs) -> i32 {
     );
     for e in &harness_errors {
         println!("HARNESS-ERROR: {e}");
+    }
+    for e in &notes {
+        println!("HARNESS-NOTE: {e}");
     }
     for (v, p) in &confirmed {
         println!("  {} [{}] {}", v.oracle, v.class, v.message.chars().take(200).collect::<String>());
